@@ -108,6 +108,15 @@ def search_export_history(failure):
         if a.get('files') != b.get('files'):
             return {'request': {'op': 'export_history', 'steps': h}, 'result': {'files': a.get('files'), 'results': a.get('results'),
                     'expected_files': b.get('files'), 'agree': False, 'note': 'expected_files = same calls in reverse order'}, 'kind': 'history'}
+    # a failed export must not be recorded as done (C17): obstacle before one step, removed before the retry of that step
+    for first, second in (('A', 'B'), ('B', 'A')):
+        h = [['export_all', first], ['hide', 'bindings/shared.ts'], ['export_all', second], ['restore', 'bindings/shared.ts'], ['export_all', second]]
+        got = run_history(h)
+        res = got.get('results', [])
+        ok = len(res) == 5 and isinstance(res[2], dict) and 'err' in res[2] and res[4] == 'ok'
+        if not ok or got.get('files') != want:
+            return {'request': {'op': 'export_history', 'steps': h}, 'result': {'files': got.get('files'), 'results': res, 'expected_files': want, 'agree': False,
+                    'note': 'step 3 must fail with an error (target is a directory), the retry (step 5) must succeed and leave both declarations'}, 'kind': 'history'}
     # repeated export is a no-op
     got = run_history([['export_all', 'A'], ['export_all', 'B'], ['export', 'A'], ['export_all_to', 'B', './bindings']])
     if got.get('files') != want:
